@@ -56,6 +56,20 @@ NormClause(c, i) ==
 RECURSIVE FirstBad(_, _)
 FirstBad(c, i) == IF i > Len(c.norms) THEN <<"ok", 0>> ELSE LET cl == NormClause(c, i) IN IF cl = "ok" THEN FirstBad(c, i + 1) ELSE <<cl, i>>
 Bars(L) == [i \in 1..Len(L) |-> <<L[i][1], L[i][2]>>]
+\* kind = "laws": the consequences the property names, on ONE session over two shared landscape objects P, Q (both norms of P and Q are
+\* validated against their integrals by two ordinary "norms" cases, taken before and after the session).  c = <<num, den>> the scalar,
+\* rows = [[p (0 = sup norm), finite, nP, nQ, n(P-Q), n(Q-P), n(P-P), n(c*P), n(P+Q)]] as Fix records, all divided by max(nP, nQ) (the
+\* laws are homogeneous of degree one, so the common factor is immaterial).
+LawClause(c, i) ==
+  LET e == c.rows[i]  cn == AbsI(c.c[1])  cd == c.c[2] IN
+  IF e[2] = 0 THEN "norm-not-finite"
+  ELSE IF ~FLeq(e[7], E9) THEN "nonzero-for-P-minus-P"
+  ELSE IF ~Close(e[5], e[6]) THEN "not-absolutely-homogeneous"
+  ELSE IF ~Close(FMulInt(e[8], cd), FMulInt(e[3], cn)) THEN "not-absolutely-homogeneous"
+  ELSE IF ~FLeqTol(e[5], FAdd(e[3], e[4]), E12, E9) \/ ~FLeqTol(e[9], FAdd(e[3], e[4]), E12, E9) THEN "triangle-inequality"
+  ELSE "ok"
+RECURSIVE FirstBadLaw(_, _)
+FirstBadLaw(c, i) == IF i > Len(c.rows) THEN <<"ok", 0>> ELSE LET cl == LawClause(c, i) IN IF cl = "ok" THEN FirstBadLaw(c, i + 1) ELSE <<cl, c.rows[i][1]>>
 Verdict(c) ==
   IF c.kind = "norms" THEN
      (IF c.lattice = 0 THEN <<"fail", "value-off-lattice", 0>>
@@ -64,6 +78,8 @@ Verdict(c) ==
            ELSE IF c.sup[1] = 0 THEN <<"fail", "sup-norm-not-finite", 0>>
            ELSE IF ~Close(c.sup[2], SupOf(c.obj, c.q)) THEN <<"fail", "sup-norm-differs-from-largest-absolute-value", 0>>
            ELSE <<"ok", "", 0>>)
+  ELSE IF c.kind = "laws" THEN
+     (LET fb == FirstBadLaw(c, 1) IN IF fb[1] = "ok" THEN <<"ok", "", 0>> ELSE <<"fail", fb[1], fb[2]>>)
   ELSE \* stability law, both sides observed from the code; inputs on which the exact sweep takes its repeated-bar shortcut are excluded
      (IF SW!RunAll(SW!InitSt(Bars(c.X)), <<>>, TRUE)[1].fired \/ SW!RunAll(SW!InitSt(Bars(c.Y)), <<>>, TRUE)[1].fired THEN <<"excluded", "C03-known-finding-input", 0>>
       ELSE IF c.sup[1] = 0 \/ c.bott[1] = 0 THEN <<"fail", "not-finite", 0>>
